@@ -14,7 +14,7 @@ structure DS where
   files : List Bytes := []     -- newest first
 
 def engineKind (k : String) : Bool :=
-  k == "v3" || k == "v3app" || k == "v3open" || k == "v2" || k == "v2app" || k == "v2resv" || k == "v3cmp" || k == "v2cmp"
+  k == "v3" || k == "v3app" || k == "v3open" || k == "v2" || k == "v2app" || k == "v2resv" || k == "v3cmp" || k == "v2cmp" || k == "v3torn"
 
 def insertSorted (x : Bytes) : List Bytes → List Bytes
   | [] => [x]
@@ -51,6 +51,8 @@ def step (d : DS) (line : String) : DS × String :=
         else "\t#F:C29-name-mismatch"
       ({ d with files := file :: d.files }, line ++ flag)
     | _, _ => (d, "bad-op")
+  | ["wipe"] => ({ d with files := [] }, "ok")
+  | ["rmlast"] => ({ d with files := d.files.drop 1 }, "ok")
   | ["scan"] =>
     let fs := d.files
     let scanned := (fs.filter fun f => match openReader f with | .ok _ => true | .error _ => false).length
